@@ -89,6 +89,11 @@ CLAIMED = {
     level="Row-wise equality of hand-duplicated formulas is decided exactly for all rows at once (a transposed index or flipped sign in one copy changes its normal form); option forwarding and dispatcher agreement are structural facts over every call site. Bitwise float equality is not decided.",
     note="Generic arms of data-dependent branches (sign atoms, clip transparent); SAAM compared on unit samples to bound expression size.",
     ref="DESIGN.md §2 C07"),
+ "C02": dict(
+    technique="AVN inversion identity E(method(E(q))) == E(q) on every arm of every method (all decision paths of shepperd's pivot selection, chiaverini/hughes 3x3 and Nx3x3, the 16 threshold arms of sarabandi in the thorough tier, the eigen-identity K(E(q)) u = u for itzhack), PIVOT rule tying shepperd's divisor to the selected largest entry, UNIT/REAL must-facts on all return paths, DISPATCH agreement, BAND and NO-SIGN-ZERO rules",
+    level="For a symbolic unit quaternion the matrix is polynomial, and each method's arm is a closed form whose output must reproduce the matrix identically; this decides correctness on the whole arm (including the rarely sampled ones) exactly. The pivot rule is the structural reason the default method is valid at half-turns and the identity. LAPACK accuracy and sign(0) at exact half-turns of the closed-form methods are not decided.",
+    note="Unit quaternion as symbols with w^2 = 1 - x^2 - y^2 - z^2; sign/abs atoms with sign*abs = id; generic scalar part positive for hughes.",
+    ref="DESIGN.md §2 C02"),
 }
 
 NOT_YET = "check not built yet in this session (work in progress; see DESIGN.md §2 for the planned static rules)"
